@@ -73,7 +73,7 @@ func c06Ladder(k, xP *Key, step func(*[5]fp.Elt, uint)) {
 // c06SharedGeneric is Shared of key.go on the generic ladder.
 func c06SharedGeneric(shared, secret, public *Key) bool {
 	validPk := *public
-	
+
 	ok := validPk.isValidPubKey()
 	c06Ladder(shared.clamp(secret), &validPk, ladderStepGeneric)
 	return ok
